@@ -20,6 +20,7 @@
 // rules (artefacts of the libFuzzer campaigns of tools/c17_fuzz.py: mesh_reader / parameter_reader alone).
 // Mutant files are m<i>.vtk / m<i>.xml in --wd; they are deleted unless they violate.
 #include "vh.hpp"
+#include <omp.h>
 #include "simulation_initializer.hpp"
 #include "verif_hooks.hpp"
 #include <cxxabi.h>
@@ -611,5 +612,41 @@ int cmd_startup(const Args& a) {
     return 0;
 }
 Reg r_startup("startup", cmd_startup);
+
+// ---- many cells that are all refused, several threads --------------------------------------------------------------------------------------
+// A mesh file of 300 .. 4000 cubes whose cell_type_id has no cell type in the parameter file (or, one file in three, that all lack a face): every
+// cell of the parallel initialisation loop fails, most threads hold an exception at the same time.  Start-up must still end with ONE exception
+// that main reports - no abort, no corrupted heap.  Each file is started several times (the outcome of a race differs from run to run).
+int cmd_startup_many(const Args& a) {
+    Agg agg; char cwd[4096]; if (!getcwd(cwd, sizeof cwd)) { perror("getcwd"); return 2; }
+    const std::string epi = xml_cell_type(0, "epithelial", xml_face_type(0, "apical", "1e-3") + xml_face_type(1, "lateral", "8e-4") + xml_face_type(2, "basal", "1e-3"), false);
+    for (long i = a.first; i < a.first + a.cases; i++) {
+        if (!a.mine(i)) continue;
+        Rng g(a.seed, (uint64_t)i, 0x17b); Case c(i);
+        const int ncell = (int)g.logu(300, 4000), kind = g.range(0, 2), repeats = (int)a.geti("repeats", 6);
+        std::vector<std::array<double, 3>> P; std::vector<std::vector<std::vector<unsigned>>> cells; std::vector<int> tids;
+        for (int k = 0; k < ncell; k++) { cube_points(P, 3e-5 * k, 1e-5); std::vector<std::vector<unsigned>> cf; const int nf = kind == 2 ? 11 : 12; for (int f = 0; f < nf; f++) cf.push_back({CUBE_TRI[f][0] + 8u * k, CUBE_TRI[f][1] + 8u * k, CUBE_TRI[f][2] + 8u * k}); cells.push_back(cf); tids.push_back(kind == 2 ? 0 : g.range(1, 9)); }
+        const std::string vtk = vtk_text(P, cells, tids, false, "double"); Base b; xml_text(b, epi);
+        const std::string mp = std::string(cwd) + "/c17m_" + std::to_string((long)getpid()) + "_" + std::to_string(i) + ".vtk", xp = std::string(cwd) + "/c17m_" + std::to_string((long)getpid()) + "_" + std::to_string(i) + ".xml";
+        { FILE* f = fopen(mp.c_str(), "w"); if (f) { fputs(vtk.c_str(), f); fclose(f); } f = fopen(xp.c_str(), "w"); if (f) { fputs((b.xml_head + mp + b.xml_tail).c_str(), f); fclose(f); } }
+        long rejected = 0, completed = 0;
+        for (int r = 0; r < repeats && c.v != "viol"; r++) {
+            IsoResult ir = run_isolated([&]() { omp_set_num_threads(a.threads); return startup_body(xp); }, a.getd("cpu_limit", 300), a.getd("cpu_limit", 300) * 3); agg.bin("many_refused_cells_startups");
+            if (!ir.completed) { if (ir.timeout) { c.v = "inconclusive"; c.msg = "time-out"; break; }
+                c.viol("many_refused_cells:" + local_key(ir), "start-up on a file of " + std::to_string(ncell) + " cells that are all refused (" + (kind == 2 ? "a face missing" : "cell_type_id without a cell type") + "), " + std::to_string(a.threads) + " threads, run " + std::to_string(r + 1) + " of " + std::to_string(repeats) + ": the process died (signal " + std::to_string(ir.signal) + ") " + ir.err.substr(0, 300)); break; }
+            if (ir.line.rfind("exception type=", 0) == 0) rejected++; else if (ir.line.rfind("completed", 0) == 0) completed++; else c.viol("many_refused_cells:non_std_exception", ir.line.substr(0, 200));
+        }
+        unlink(mp.c_str()); unlink(xp.c_str());
+        if (c.v != "viol" && completed > 0) c.viol("many_refused_cells:accepted", "start-up completed on a file whose cells must all be refused");
+        c.nontrivial = rejected > 0; c.sig = hash_combine((uint64_t)ncell, (uint64_t)kind * 31 + (uint64_t)i);
+        c.obs.i("cells", ncell).s("kind", kind == 2 ? "face_missing" : "unknown_cell_type").i("threads", a.threads).i("startups_rejected", rejected);
+        agg.bin("many_refused_cells_files"); agg.bin("many_refused_cells_total", ncell);
+        if (c.v == "inconclusive") emit(c.line());
+        agg.add(c);
+    }
+    agg.flush(a.shard_i);
+    return 0;
+}
+Reg r_startup_many("startup_many", cmd_startup_many);
 
 }  // namespace
